@@ -69,7 +69,7 @@ def correspondence(ctx):
     docs.insert(0, ((3, 1, [(0, 0)], [], [(True, False, 0, 0, 3, 1, [(0, 0, 65, 14, 1, 0, 0), (2, 0, 219, 4, 2, 0, 0)])]), True))
     docs.insert(1, ((2, 1, [(0, 0)], [], [(True, False, 0, 0, 2, 1, [(0, 0, 65, 1, 2, 0, 0)]), (True, True, 1, 0, 1, 1, [])]), False))
     # every glyph of a font page in one document: ties get_shape for all 256 codes of that page
-    pages = list(range(43)) if (ctx.thorough or ctx.escalated) else sorted({0, 5, 26, 32, 37, 42, rng.randrange(43), rng.randrange(43)})
+    pages = list(range(43))
     for pg in pages:
         cells = [(i % 64, i // 64, i, 1 + (i * 7) % 15, (i * 3) % 16, 0, 0) for i in range(256)]
         docs.append(((64, 4, [(0, pg)], [], [(True, False, 0, 0, 64, 4, cells)]), pg % 2 == 0))
